@@ -41,7 +41,12 @@ class Ctx:
         return np.random.default_rng([self.seed, salt, int(self.pid[1:])])
 
     def size(self, quick, thorough):
-        return thorough if self.thorough else quick
+        if self.thorough:
+            return thorough
+        # change-directed depth: more cases when /repo differs from the recorded source (harness/focus.py)
+        from harness import focus
+
+        return min(max(thorough, quick), quick * focus.get().scale)
 
     def elapsed(self):
         return time.time() - self.t0
@@ -202,6 +207,12 @@ def main():
     cov["no_longer_checks"] = broken[:10]
     cov["known_findings_seen"] = sorted(seen_known)
     cov["notes"] = ctx.notes
+    try:
+        from harness import focus
+
+        cov["change_directed"] = focus.get().describe()
+    except Exception as exc:  # never let the focus helper decide anything
+        cov["change_directed"] = {"error": repr(exc)}
     if "leanchecker_rc" in lean_info:
         cov["leanchecker_rc"] = lean_info["leanchecker_rc"]
     evidence["violations"] = len(new_viol) + (1 if (broken and not new_viol) else 0)
